@@ -415,6 +415,15 @@ def replay_ce(ce):
                     bad = True
                     details.append('%s: builtins disabled = %s, then set_builtin_functions_disabled%s -> disabled %s, variables %s'
                                    % (prof, start, h, o2['h%d' % i].get('disabled'), o2['h%d' % i]['vars']))
+            # clearing removes variables and/or functions and nothing else: the switch stays, the other map stays
+            for j, (op_, keeps_vars, keeps_fn) in enumerate([('clear_variables', False, True), ('clear_functions', True, False), ('clear', False, False)]):
+                o3 = replay.run_cases(replay.case_text('c', 'none', '', vars=[('y', ('Int', 1)), ('s', ('String', 'a'))], funcs=[('f', 'log')], disabled=start,
+                                                       ops=[op_, 'call %s I:1' % replay.hx('f')]), prof)['c']
+                called = [n for n, a in o3.get('log', [])] == ['f']
+                wantv = {'y': ('Int', 1), 's': ('String', 'a')} if keeps_vars else {}
+                if o3.get('disabled') != start or o3['vars'] != wantv or called != keeps_fn:
+                    bad = True
+                    details.append('%s: {y, s, f, builtins disabled = %s}.%s() -> variables %s, f callable %s, disabled %s' % (prof, start, op_, o3['vars'], called, o3.get('disabled')))
         f = out['fresh']
         if f.get('result') != ('Ok', ('Int', 4)) or f['vars'].get('z') != ('Int', 4) or f['vars'].get('y') != ('Int', 1):
             bad = True
